@@ -25,3 +25,5 @@ def run(ctx, crate):
     rule_suspend_protocol(ctx, crate)
     D.rule_rows_newtype(ctx, crate)
     D.rule_width_source(ctx, crate)
+    D.rule_line_kinds(ctx, crate)
+    D.rule_bar_rows_split(ctx, crate)
